@@ -61,6 +61,7 @@ def replay(ctx, stage, tab, behs, env=None):
 
 def run(ctx):
     th = ctx.thorough
+    stages = set((os.environ.get("VERIF_C02_STAGES") or "exh,agent,sim").split(","))  # development aid
     consts = {"DEN": 6, "SFs": [1, 2, 4], "Window": 93600, "MaxCnt": 24}
     # 1. the design (encoder/decoder of transfer.go against the specified Transfer) is checked on every
     #    state of the runs that also export the behaviours for the driver
@@ -82,9 +83,28 @@ def run(ctx):
             if r.violated != "invariant:CodecMatchesSpec":
                 raise Infra("CodecMatchesSpec does not fire on the original encoder (%s): %s" % (what, r.violated))
     # 2. replay on the real code
-    replay(ctx, "exhaustive", tab, b1.behaviours + b2.behaviours)
+    if "exh" in stages:
+        replay(ctx, "exhaustive", tab, b1.behaviours + b2.behaviours)
+    if "agent" in stages:
+        # the same behaviours (sample factor 1) through a real agent.Shard and the real sampleBucket
+        ab = [b for b in b1.behaviours + b2.behaviours if b[-1].get("sf") == 1]
+        random.Random(ctx.seed).shuffle(ab)
+        ab = ab[: (30000 if th else 3000)]
+        res, out, rc = ctx.go_test("internal/agent", "TestVerifC02Agent", inp=[[tab]] + ab,
+                                   env={"VERIF_DEN": 6, "VERIF_BUCKET": 1700000000}, timeout=1500)
+        res = ctx.need_result(res, out, rc, "TestVerifC02Agent")
+        if res["counters"].get("drift"):
+            raise Infra("agent: rows built by the real Shard.Apply* differ from RowAlgebra's (%s)" % res.get("notes", [])[:2])
+        n = ctx.replay_s2i_mismatches(res, "agent")
+        if rc != 0 and not n:
+            ctx.save("driver_agent.log", out[-20000:])
+            raise Infra("agent driver failed without a mismatch")
+        ctx.ev.add_impl("transfer through real agent.Shard.Apply* + sampleBucket (sf 1)", res["replayed"], steps=res["steps"],
+                        distinct_classes=res.get("distinct", 0))
     # 3. longer behaviours generated by simulation of the same specification
-    sim = ctx.tlc("RowTransferMC", "RowTransfer_sim.cfg", simulate=(12000 if th else 1500, 12), timeout=1500,
+    if "sim" not in stages:
+        return
+    sim = ctx.tlc("RowTransferMC", "RowTransfer_sim.cfg", simulate=(3000 if th else 600, 12), timeout=1500,
                   name="simulation (<=8 events)")
     ctx.require_model_ok(sim, "simulation")
     replay(ctx, "simulated", tab, sim.behaviours)
